@@ -18,6 +18,8 @@ tlbparsers_tx.py and only adds:
               deserialize_shard_hashes(S)   (tlb/utils.py; its text and BinTree.deserialize are PINNED: a hand model)
                                                                     -> Rd.loadShardHashes ShardDescr S
   returns     `return S.load_hashmap_aug_e(…)` : the parser returns the tuple itself (ShardAccounts, OldMcBlocksInfo)
+  presence    the constructor argument `shard_fees` of `McBlockExtra(…)` (`load_maybe_ref()`: the ROOT CELL of the ShardFees dictionary, which
+              the parser does not walk) is recorded as `Rd.presence` = None / "a cell" (declared interface)
   erased      the keyword argument `cell=` of `ShardAccount(…)` (a copy of the slice being parsed: bookkeeping, no schema field) is
               evaluated but not made part of the returned object (declared interface, as for `Transaction(cell=…)`).
 
@@ -53,9 +55,12 @@ CLASSES = [
     ('config', 'ValidatorSet'),
     ('block', 'ShardAccounts'), ('block', 'OldMcBlocksInfo'), ('block', 'BlockCreateStats'),
     ('block', 'ConfigParams'), ('block', 'McStateExtra'), ('block', 'ShardStateUnsplit'),
+    ('block', 'McBlockExtra'), ('block', 'ShardState'),
 ]
 
 ERASED_KW = {('ShardAccount', 'cell')}
+# constructor arguments the parser keeps as an unparsed cell where the schema has a structured value: recorded as None / "a cell"
+PRESENCE_KW = {('McBlockExtra', 'shard_fees')}
 
 # hand-modelled helper functions: their source text must be exactly this (ast.unparse), else the classes that call them are `lost`
 PINNED = {
@@ -118,6 +123,8 @@ class FnBlk(TX.FnTx):
     def call(self, e, env, out):
         ctx = self.ctx
         f = e.func
+        if isinstance(f, ast.Name) and f.id == '__presence__':
+            return V(f'(Rd.presence {self.expr(e.args[0], env, out).lean})', 'val')
         if isinstance(f, ast.Name) and f.id == 'deserialize_shard_hashes' and len(e.args) == 1 and not e.keywords \
                 and isinstance(e.args[0], ast.Name) and isinstance(env.get(e.args[0].id), S):
             check_pinned(ctx.tr)
@@ -177,6 +184,12 @@ class FnBlk(TX.FnTx):
         return super().call(e, env, out)
 
     def construct(self, tname, e, env, out):
+        params = self.ctx.tr.init_params(self.ctx.mod, tname)
+        if any((tname, p) in PRESENCE_KW for p in params):
+            e = copy.copy(e)
+            wrap = lambda a: ast.Call(func=ast.Name(id='__presence__', ctx=ast.Load()), args=[a], keywords=[])
+            e.args = [wrap(a) if (tname, p) in PRESENCE_KW else a for p, a in zip(params, e.args)]
+            e.keywords = [ast.keyword(arg=k.arg, value=wrap(k.value)) if (tname, k.arg) in PRESENCE_KW else k for k in e.keywords]
         e2 = e
         if any((tname, k.arg) in ERASED_KW for k in e.keywords):
             e2 = copy.copy(e)
